@@ -1,6 +1,6 @@
 """C01 — load/save round trip is exact and reaches a byte-level fixed point (restart cycles)."""
 from .prng import Rng
-from . import inputs, hist, synth
+from . import inputs, hist, synth, edits
 
 PROP = 'C01'
 LEVEL = 'exploration'
@@ -8,12 +8,14 @@ WALL_CAP = {'quick': 300, 'thorough': 3000}
 RULE = ('one run = one stored file F0 driven through restart cycles: raw F1=save(load(F0)), load(F1) must succeed, F2=save(load(F1)) must equal F1 byte '
         'for byte; default G1,G2,G3 with G3==G2. F0 ranges over the 52 sample files, files synthesised with populated fields for every registered block '
         'type x 13 version configurations x seeds (typed generator driven by the NIFLY_VERIF hooks; references wired type-correctly, acyclic), and API-built '
-        'models for the BSTriShape family (every attribute combination x SSE/FO4/FO76). non-trivial = F0 was accepted by the loader and the cycles ran; '
+        'models for the BSTriShape family (every attribute combination x SSE/FO4/FO76), and all three kinds after 1..4 block-graph edits (subtree unlinked from its node = loose chain, blocks moved to another on-disk order, rebuilt reference list, nodes / shapes added, cloned, removed). non-trivial = F0 was accepted by the loader and the cycles ran; '
         'distinct = distinct initial-state specs.')
 ASSUMPTIONS = ['comparison starts at F1 (the library\'s own normal form), never at F0', 'a synthesised file the loader rejects (or faults on while it is generated) is a rejected input, counted, not a violation',
                'BSTriShape-family instances come from API builders: independently drawn vertex descriptors violate cross-field constraints that no writer produces',
                'the schedule/fault dimension is degenerate for this property (restart is the only event); reach comes from the typed generator']
-EXPECTED_PROBES = ['synth_accepted', 'default_needed_second_round', 'edit_set_texture_path_from_grammar']
+GRAPH_OPS_SYNTH = ['UnlinkFromNode', 'UnlinkFromNode', 'MoveBlocks', 'AddLooseBlock', 'RebuildRefArray', 'AddNode', 'AddExtraData', 'SetNodeName']
+GRAPH_OPS = GRAPH_OPS_SYNTH + ['DeleteShape', 'DeleteNode', 'CloneShape', 'SetParentNode', 'DeleteShader', 'DeleteSkinning', 'AlphaProperty', 'ReplaceWithClone']
+EXPECTED_PROBES = ['synth_accepted', 'default_needed_second_round', 'edit_set_texture_path_from_grammar', 'edit_unlink_from_node', 'edit_move_block_to_front', 'edit_rebuild_ref_array']
 
 
 def builder_inits(rng, n, tier):
@@ -48,6 +50,25 @@ def jobs(tier, seed, pool):
                 init['builder']['shapes'][0].update({'nv': 12, 'nt': 10})
         init['edits'] = [{'op': 'SetTexturePath', 'shape': r.below(4), 'salt': r.below(1 << 30)} for _ in range(r.range(1, 3))]
         out.append({'plan': {'property': PROP, 'profile': 'roundtrip', 'init': init, 'timeout_s': 40}, 'meta': {'kind': 'texture-paths'}})
+    # stored files as other tools leave them: subtrees unlinked from their node (loose chains), blocks in another order, rebuilt
+    # reference lists, added / removed nodes and shapes
+    types = [t for t in synth.block_types() if t not in synth.BUILDER_ONLY]
+    for i in range(900 if tier == 'quick' else 12000):
+        r = Rng(seed, PROP, 'graph', i)
+        k = r.below(10)
+        if k < 6:
+            init = {'sample': r.choice(tex_names)}
+        elif k < 8:
+            ver = r.choice(['OB', 'FO3', 'SK', 'SSE', 'FO4', 'FO76'])
+            sh = hist.shape_spec(r, ver, 'quick', name='s0')
+            if sh['nv'] > 300:
+                sh.update({'nv': 12, 'nt': 10})
+            init = {'builder': {'version': ver, 'salt': r.below(1 << 30), 'nodes': r.below(4), 'shapes': [sh]}}
+        else:
+            init = synth.synth_init(r.choice(synth.VERSIONS), r.choice(types), r.below(1 << 20), k=3)
+        ops = GRAPH_OPS if 'synth' not in init else GRAPH_OPS_SYNTH
+        init['edits'] = [edits.edit_step(r, 'quick', allow=ops) for _ in range(r.range(1, 5))]
+        out.append({'plan': {'property': PROP, 'profile': 'roundtrip', 'init': init, 'timeout_s': 40}, 'meta': {'kind': 'graph-edits'}})
     rng = Rng(seed, PROP, 'builders')
     for init in builder_inits(rng, 400 if tier == 'quick' else 6000, tier):
         out.append({'plan': {'property': PROP, 'profile': 'roundtrip', 'init': init, 'timeout_s': 8}, 'meta': {'kind': 'builder'}})
